@@ -134,9 +134,9 @@ Definition will_fail (s : state) : bool :=
 
 Inductive add_case := AC_noop | AC_idx_fail | AC_idx_ok | AC_lin_fail | AC_lin_hook | AC_lin_ok.
 
-Definition ac_called c := match c with AC_noop => false | _ => true end.
+Definition ac_called c := match c with AC_noop | AC_lin_hook => false | _ => true end.
 Definition ac_mem c := match c with AC_idx_fail | AC_idx_ok | AC_lin_ok => true | _ => false end.
-Definition ac_sto c := match c with AC_idx_ok | AC_lin_hook | AC_lin_ok => true | _ => false end.
+Definition ac_sto c := match c with AC_idx_ok | AC_lin_ok => true | _ => false end.
 
 Definition ac_cond (c : add_case) (s : state) (id : string) (fact : json) (r : outcome string) : Prop :=
   match c with
@@ -144,8 +144,7 @@ Definition ac_cond (c : add_case) (s : state) (id : string) (fact : json) (r : o
   | AC_idx_fail => st_kind s = Indexed /\ will_fail s = true /\ r = Err "storage"
   | AC_idx_ok => st_kind s = Indexed /\ will_fail s = false /\ add_hook_err s fact = None /\ r = Ok id
   | AC_lin_fail => st_kind s = Linear /\ will_fail s = true /\ r = Err "storage"
-  | AC_lin_hook => st_kind s = Linear /\ will_fail s = false /\
-                   exists e, add_hook_err s fact = Some e /\ r = Err e
+  | AC_lin_hook => st_kind s = Linear /\ exists e, add_hook_err s fact = Some e /\ r = Err e
   | AC_lin_ok => st_kind s = Linear /\ will_fail s = false /\ add_hook_err s fact = None /\ r = Ok id
   end.
 
@@ -210,12 +209,12 @@ Proof.
            unfold add_fields. cbn. rewrite Hk, H2, H3. repeat split; auto; congruence.
         -- exists AC_idx_ok. cbn [fst snd]. split; [|repeat split; auto].
            unfold add_fields. cbn. rewrite Hk, H2, H3, H4. repeat split; auto; congruence.
-  - unfold store_call. fold (will_fail s).
-    destruct (will_fail s) eqn:Ew.
-    + exists AC_lin_fail. cbn [fst snd]. split; [|repeat split; auto].
-      unfold add_fields. cbn. rewrite Hk. repeat split; auto.
-    + destruct (add_hook_err s fact) as [e|] eqn:Eh.
-      * exists AC_lin_hook. cbn [fst snd]. split; [|split; [exact Hk|split; [exact Ew|eauto]]].
+  - destruct (add_hook_err s fact) as [e|] eqn:Eh.
+    + exists AC_lin_hook. cbn [fst snd]. split; [|split; [exact Hk|eauto]].
+      apply add_fields_eqp; auto using eqp_refl.
+    + unfold store_call. fold (will_fail s).
+      destruct (will_fail s) eqn:Ew.
+      * exists AC_lin_fail. cbn [fst snd]. split; [|repeat split; auto].
         unfold add_fields. cbn. rewrite Hk. repeat split; auto.
       * exists AC_lin_ok. cbn [fst snd]. split; [|repeat split; auto].
         unfold add_fields. cbn. rewrite Hk. repeat split; auto.
